@@ -274,3 +274,13 @@ op("py-block-sorts-arglist", ["C17"], PY, r"(    def _compile\(self\):\n        
 op("cpp-sensor-jacobian-memo-by-names", ["C02"], CPP, r"(        self\.sensorlist = sorted\()", r"        self._jac_memo = {}\n\1",
    also=[(CPP, r"        yield from BasicBlock\(\n            statements=self\._translate_sensor_jacobian_impl\(sensor_model_mapping\),\n            indent=4,\n            config=self\.config,\n        \)\.compile\(\)",
           "        key = tuple(sorted(sensor_model_mapping))\n        if key not in self._jac_memo:\n            self._jac_memo[key] = list(BasicBlock(\n                statements=self._translate_sensor_jacobian_impl(sensor_model_mapping),\n                indent=4,\n                config=self.config,\n            ).compile())\n        yield from self._jac_memo[key]")])
+
+# ---------------------------------------------------------------- round 8: statement source, default cse names, float literal, constructor drops its start time, gate size from the wrong axis
+op("py-model-statement-fallback", ["C01"], PY, r"statements=\[symbolic_model\.state_model\[a\] for a in self\.arglist_state\]", "statements=[symbolic_model.state_model.get(a, a) for a in self.arglist_state]")
+op("py-model-statement-or", ["C01"], PY, r"statements=\[symbolic_model\.state_model\[a\] for a in self\.arglist_state\]", "statements=[symbolic_model.state_model[a] or a for a in self.arglist_state]")
+op("cpp-cse-default-names", ["C02", "C08", "C07", "C09"], CPP, r"prefix, body = cse\(body, symbols=\(Symbol\(f\"_t\{i\}\"\) for i in count\(\)\)\)", "prefix, body = cse(body)")
+op("py-cse-default-names", ["C01", "C08"], PY, r"prefix, body = cse\(body, symbols=\(Symbol\(f\"_t\{i\}\"\) for i in count\(\)\)\)", "prefix, body = cse(body)")
+op("innov-h-float-literal", ["C06", "C07"], INNOV if "INNOV" in globals() else "cpp/include/formak/innovation_filtering.h", r"std::sqrt\(2 \* reading_size\)", "std::sqrt(2.0f * reading_size)")
+op("hdr-ctor-drops-start-time", ["C11"], HDR, r"_state\{\.currentTime = initialTimestamp, \.state = initialState\} \{", "_state{.state = initialState} {")
+op("py-gate-size-from-columns", ["C05", "C06"], PY, r"\(sensor_size, _\) = innovation\.shape", "(_, sensor_size) = innovation.shape")
+op("py-setparams-config-from-defaults", ["C10", "C17"], PY, r"mutable_version = dataclasses\.asdict\(self\.config\)", "mutable_version = dataclasses.asdict(Config())")
